@@ -212,9 +212,10 @@ def _rq_outer(c):
         ('add-mode', Implies(Not(c.a.remove), ForAll([x], c.cur.mem(own1, x) ==
                                                      Or(c.pre.mem(own0, x), And(LV(x), x != c.a.self)),
                                                      patterns=[c.cur.mem(own1, x)]))),
-        ('remove-mode', Implies(c.a.remove, And(
-            ForAll([x], Implies(LV(x), c.pre.mem(own0, x)), patterns=[c.pre.mem(own0, x)]),
-            ForAll([x], c.cur.mem(own1, x) == And(c.pre.mem(own0, x), Not(LV(x))), patterns=[c.cur.mem(own1, x)])))),
+        ('remove-mode', Implies(c.a.remove,
+            ForAll([x], Implies(LV(x), c.pre.mem(own0, x)), patterns=[c.pre.mem(own0, x)]))),
+        ('remove-mode-result', Implies(c.a.remove,
+            ForAll([x], c.cur.mem(own1, x) == And(c.pre.mem(own0, x), Not(LV(x))), patterns=[c.cur.mem(own1, x)]))),
         ('frame[elems]', _req_frame(c)),
         ('frame[lists-and-roles]', _req_lists(c)),
     ]
@@ -238,9 +239,10 @@ def _rq_inner(c):
         ('add-mode', Implies(Not(c.a.remove), ForAll([x], c.cur.mem(own1, x) ==
                                                      Or(c.pre.mem(own0, x), And(seen(x), x != c.a.self)),
                                                      patterns=[c.cur.mem(own1, x)]))),
-        ('remove-mode', Implies(c.a.remove, And(
-            ForAll([x], Implies(seen(x), c.pre.mem(own0, x)), patterns=[c.pre.mem(own0, x)]),
-            ForAll([x], c.cur.mem(own1, x) == And(c.pre.mem(own0, x), Not(seen(x))), patterns=[c.cur.mem(own1, x)])))),
+        ('remove-mode', Implies(c.a.remove,
+            ForAll([x], Implies(seen(x), c.pre.mem(own0, x)), patterns=[c.pre.mem(own0, x)]))),
+        ('remove-mode-result', Implies(c.a.remove,
+            ForAll([x], c.cur.mem(own1, x) == And(c.pre.mem(own0, x), Not(seen(x))), patterns=[c.cur.mem(own1, x)]))),
         ('frame[elems]', _req_frame(c)),
         ('frame[lists-and-roles]', _req_lists(c)),
     ]
@@ -250,7 +252,7 @@ def _cl(fn, labels, key):
     return [(lab, (lambda lab: lambda c: dict(c.memo(key, lambda: fn(c)))[lab])(lab)) for lab in labels]
 
 
-_RQ = ['add-mode', 'remove-mode', 'frame[elems]', 'frame[lists-and-roles]']
+_RQ = ['add-mode', 'remove-mode', 'remove-mode-result', 'frame[elems]', 'frame[lists-and-roles]']
 c.loop(0, inv=_cl(_rq_outer, _RQ, 'rq0'))
 c.loop(1, inv=_cl(_rq_inner, _RQ, 'rq1'))
 
